@@ -6,9 +6,6 @@ namespace Gallia.Parse
 theorem normChar_digit : ∀ z ∈ decZeros, ∀ d, d < 10 → normChar (Char.ofNat (z + d)) = Char.ofNat (48 + d) := by
   decide +kernel
 
-theorem uniDigit_digit : ∀ z ∈ decZeros, ∀ d, d < 10 → uniDigit (Char.ofNat (z + d)) = some d := by
-  decide +kernel
-
 theorem map_normChar_toScript (z0 : Nat) (hz : z0 ∈ decZeros) (s : Str) :
     (toScript z0 s).map normChar = s.map normChar := by
   unfold toScript
